@@ -6,9 +6,10 @@
     query [q] through net/http's target parsing, requestcontext.extractURL,
     repository.FindRule, the route matchers and ruleImpl.Execute (C08/Model.v).
     [fx] says which repairs the modelled tree contains:
-      [fixed_F2]  the tree as it is now (fix: commit a779db8, lower-case %2f recognised),
-      [pinned]    the tree before that commit (kept to document finding C08-F2),
-      [repaired]  additionally the candidate fixes/C08-F3.diff.
+      [repaired]  the tree as it is now (fix: commits a779db8: lower-case %2f recognised,
+                  72ba5d4: path_params decoded under `off`),
+      [fixed_F2]  the tree before 72ba5d4 (kept to document finding C08-F3),
+      [pinned]    the tree before a779db8 (kept to document finding C08-F2).
 
     [reenc p p'] (Base/GoUrlFacts.v): [p'] spells the same path as [p] — any
     unreserved octet percent-encoded or decoded, the hex digits of any escape in
@@ -17,7 +18,6 @@
     Open findings and their guards (conditions on the input, C08/Spec.v):
       C08-F1 [guard_F1 rules p p']  a literal segment of some path expression compares
                                     differently with the two spellings
-      C08-F3 [guard_F3 rules]       a rule with `off` and path_params
       C08-F4 [guard_F4 p]           a byte net/url does not accept in an encoded path
       C08-F5 [guard_F5 p]           a '$' in the decoded path *)
 From HV Require Import Base.Prelude Base.GoUrl Base.GoUrlFacts C08.Model C08.Proofs.
@@ -27,13 +27,12 @@ Local Open Scope string_scope.
 (** * 1. Re-encoding changes neither the answer, nor the rule, nor the captured values *)
 
 (** for all rule sets, with or without default rule, all paths and all their
-    equivalent spellings — outside C08-F1 and C08-F3 *)
+    equivalent spellings — outside C08-F1 *)
 Theorem C08_reencoding_invariant : forall rules dflt host q p p',
   reenc p p' ->
   guard_F1 rules p p' = false ->
-  guard_F3 rules = false ->
-  decision_eq (serve fixed_F2 rules dflt host p q) (serve fixed_F2 rules dflt host p' q).
-Proof. exact reencoding_invariant_fixed. Qed.
+  decision_eq (serve repaired rules dflt host p q) (serve repaired rules dflt host p' q).
+Proof. exact reencoding_invariant_repaired. Qed.
 Print Assumptions C08_reencoding_invariant.
 
 (** the same for every variant of the tree; the guards of repaired findings are not needed *)
@@ -47,16 +46,17 @@ Proof. exact reencoding_invariant. Qed.
 Print Assumptions C08_reencoding_invariant_parametric.
 
 Theorem C08_F1_refuted : exists rules p p',
-  reenc p p' /\ guard_F1 rules p p' = true /\ guard_F3 rules = false /\
-  ~ decision_eq (serve fixed_F2 rules false "h" p "") (serve fixed_F2 rules false "h" p' "").
-Proof. exact F1_fixed_refuted. Qed.
+  reenc p p' /\ guard_F1 rules p p' = true /\
+  ~ decision_eq (serve repaired rules false "h" p "") (serve repaired rules false "h" p' "").
+Proof. exact F1_repaired_refuted. Qed.
 Print Assumptions C08_F1_refuted.
 
-Theorem C08_F3_refuted : exists rules p p',
+(** C08-F3 on the tree before 72ba5d4: [guard_F3 rules] = a rule with `off` and path_params *)
+Theorem C08_F3_pinned_refuted : exists rules p p',
   reenc p p' /\ guard_F1 rules p p' = false /\ guard_F3 rules = true /\
   ~ decision_eq (serve fixed_F2 rules false "h" p "") (serve fixed_F2 rules false "h" p' "").
-Proof. exact F3_fixed_refuted. Qed.
-Print Assumptions C08_F3_refuted.
+Proof. exact F3_pinned_refuted. Qed.
+Print Assumptions C08_F3_pinned_refuted.
 
 (** C08-F2 on the tree before a779db8 *)
 Theorem C08_F2_pinned_refuted : exists rules p p',
@@ -65,14 +65,18 @@ Theorem C08_F2_pinned_refuted : exists rules p p',
 Proof. exact F2_refuted. Qed.
 Print Assumptions C08_F2_pinned_refuted.
 
-(** the hypotheses are satisfiable by a request matched through literal and
-    wildcard segments, with path_params and an encoded slash, and accepted *)
+(** the hypotheses are satisfiable: an `off` rule with path_params whose parameter is
+    spelled with escapes (the former C08-F3 situation), and a request matched
+    through literal and wildcard segments with an encoded slash; both accepted *)
 Theorem C08_reencoding_invariant_nonvacuous :
+  reenc "/api/admin" "/api/%61dmi%6e" /\
+  guard_F1 w_rules_F3 "/api/admin" "/api/%61dmi%6e" = false /\
+  guard_F3 w_rules_F3 = true /\
+  (exists up, serve repaired w_rules_F3 false "h" "/api/%61dmi%6e" "" = Accepted "pp" false [("p1", "admin")] up) /\
   reenc "/api/users/j%2Fd" "/api/users/%6A%2f%64" /\
   guard_F1 w_rules_ok "/api/users/j%2Fd" "/api/users/%6A%2f%64" = false /\
-  guard_F3 w_rules_ok = false /\
-  exists up, serve fixed_F2 w_rules_ok false "h" "/api/users/%6A%2f%64" "" = Accepted "users" false [("id", "j%2Fd")] up.
-Proof. exact reencoding_invariant_fixed_nonvacuous. Qed.
+  exists up, serve repaired w_rules_ok false "h" "/api/users/%6A%2f%64" "" = Accepted "users" false [("id", "j%2Fd")] up.
+Proof. exact reencoding_invariant_repaired_nonvacuous. Qed.
 Print Assumptions C08_reencoding_invariant_nonvacuous.
 
 (** a path with a malformed escape is refused with 400 before heimdall sees it
@@ -96,9 +100,9 @@ Print Assumptions C08_reenc_checked_by_evaluator.
 Theorem C08_off_rejects_encoded_slash : forall rules dflt host q p rid d cs up,
   enc_slash p = true ->
   guard_F4 p = false ->
-  serve fixed_F2 rules dflt host p q = Accepted rid d cs up ->
+  serve repaired rules dflt host p q = Accepted rid d cs up ->
   d = false /\ exists r, In r rules /\ r_id r = rid /\ r_setting r <> Off.
-Proof. exact off_rejects_encoded_slash_fixed. Qed.
+Proof. exact off_rejects_encoded_slash_repaired. Qed.
 Print Assumptions C08_off_rejects_encoded_slash.
 
 (** … it is answered with the precondition error when a default rule is
@@ -107,8 +111,8 @@ Theorem C08_off_answers_precondition : forall rules host q p,
   enc_slash p = true ->
   guard_F4 p = false ->
   (forall r, In r rules -> r_setting r = Off) ->
-  serve fixed_F2 rules true host p q = Precondition \/ serve fixed_F2 rules true host p q = BadRequest.
-Proof. exact off_answers_precondition_fixed. Qed.
+  serve repaired rules true host p q = Precondition \/ serve repaired rules true host p q = BadRequest.
+Proof. exact off_answers_precondition_repaired. Qed.
 Print Assumptions C08_off_answers_precondition.
 
 Theorem C08_off_rejects_encoded_slash_parametric : forall fx rules dflt host q p rid d cs up,
@@ -123,8 +127,8 @@ Print Assumptions C08_off_rejects_encoded_slash_parametric.
 Theorem C08_F4_off_refuted : exists rules p rid cs up,
   enc_slash p = true /\ guard_F4 p = true /\
   (forall r, In r rules -> r_setting r = Off) /\
-  serve fixed_F2 rules true "h" p "" = Accepted rid false cs up.
-Proof. exact F4_off_fixed_refuted. Qed.
+  serve repaired rules true "h" p "" = Accepted rid false cs up.
+Proof. exact F4_off_repaired_refuted. Qed.
 Print Assumptions C08_F4_off_refuted.
 
 Theorem C08_F2_off_pinned_refuted : exists rules p rid cs up,
@@ -142,10 +146,10 @@ Theorem C08_off_captures_decoded : forall rules dflt host q p rid cs up,
   guard_F4 p = false ->
   guard_F5 p = false ->
   (forall r, In r rules -> r_id r = rid -> r_setting r = Off) ->
-  serve fixed_F2 rules dflt host p q = Accepted rid false cs up ->
+  serve repaired rules dflt host p q = Accepted rid false cs up ->
   enc_slash p = false /\
   Forall (fun kv => exists v, piece_of p v /\ snd kv = unescape_or_empty v) cs.
-Proof. exact off_captures_decoded_fixed. Qed.
+Proof. exact off_captures_decoded_repaired. Qed.
 Print Assumptions C08_off_captures_decoded.
 
 (** * 3. `no_decode` and `on` *)
@@ -156,9 +160,9 @@ Print Assumptions C08_off_captures_decoded.
 Theorem C08_capture_decoding : forall st v,
   wfenc v ->
   guard_F5 v = false ->
-  unescape_capture fixed_F2 st v =
+  unescape_capture repaired st v =
   match st with On => unescape_or_empty v | _ => decode_keep_slash v end.
-Proof. exact capture_decoding_fixed. Qed.
+Proof. exact capture_decoding_repaired. Qed.
 Print Assumptions C08_capture_decoding.
 
 (** `no_decode`: every captured value is a piece of the request path decoded
@@ -169,11 +173,11 @@ Theorem C08_nodecode_keeps : forall rules dflt host q p rid cs up,
   guard_F4 p = false ->
   guard_F5 p = false ->
   (forall r, In r rules -> r_id r = rid -> r_setting r = NoDecode) ->
-  serve fixed_F2 rules dflt host p q = Accepted rid false cs up ->
+  serve repaired rules dflt host p q = Accepted rid false cs up ->
   Forall (fun kv => exists v, piece_of p v /\ snd kv = decode_keep_slash v) cs /\
   ((forall r, In r rules -> r_id r = rid -> exists h, r_backend r = Some {| b_host := h; b_rw := None |}) ->
    exists u', up = Some u' /\ u_rawpath u' = p /\ wire_path u' = p).
-Proof. exact nodecode_keeps_fixed. Qed.
+Proof. exact nodecode_keeps_repaired. Qed.
 Print Assumptions C08_nodecode_keeps.
 
 (** `on`: every captured value is a piece of the request path fully decoded (an
@@ -184,29 +188,29 @@ Theorem C08_on_decodes : forall rules dflt host q p rid cs up,
   guard_F4 p = false ->
   guard_F5 p = false ->
   (forall r, In r rules -> r_id r = rid -> r_setting r = On) ->
-  serve fixed_F2 rules dflt host p q = Accepted rid false cs up ->
+  serve repaired rules dflt host p q = Accepted rid false cs up ->
   Forall (fun kv => exists v, piece_of p v /\ snd kv = unescape_or_empty v) cs /\
   ((forall r, In r rules -> r_id r = rid -> exists h, r_backend r = Some {| b_host := h; b_rw := None |}) ->
    exists u', up = Some u' /\ u_rawpath u' = "" /\ u_path u' = unescape_or_empty p /\
               enc_slash (wire_path u') = false).
-Proof. exact on_decodes_fixed. Qed.
+Proof. exact on_decodes_repaired. Qed.
 Print Assumptions C08_on_decodes.
 
 Theorem C08_nodecode_on_nonvacuous :
-  serve fixed_F2 w_rules_nd false "h" "/files/a%2fb/c%20d" "" =
+  serve repaired w_rules_nd false "h" "/files/a%2fb/c%20d" "" =
     Accepted "nd" false [("rest", "a%2Fb/c d")]
       (Some {| u_scheme := "http"; u_host := "up"; u_path := "/files/a/b/c d"; u_rawpath := "/files/a%2fb/c%20d"; u_query := "" |}) /\
-  serve fixed_F2 w_rules_on false "h" "/files/a%2fb/c%20d" "" =
+  serve repaired w_rules_on false "h" "/files/a%2fb/c%20d" "" =
     Accepted "on" false [("rest", "a/b/c d")]
       (Some {| u_scheme := "http"; u_host := "up"; u_path := "/files/a/b/c d"; u_rawpath := ""; u_query := "" |}).
-Proof. exact nodecode_on_fixed_nonvacuous. Qed.
+Proof. exact nodecode_on_repaired_nonvacuous. Qed.
 Print Assumptions C08_nodecode_on_nonvacuous.
 
 Theorem C08_F5_nodecode_refuted :
   guard_F5 "/files/x$$$escaped-slash$$$y" = true /\
-  (exists up, serve fixed_F2 w_rules_nd false "h" "/files/x$$$escaped-slash$$$y" "" = Accepted "nd" false [("rest", "x%2Fy")] up) /\
+  (exists up, serve repaired w_rules_nd false "h" "/files/x$$$escaped-slash$$$y" "" = Accepted "nd" false [("rest", "x%2Fy")] up) /\
   decode_keep_slash "x$$$escaped-slash$$$y" = "x$$$escaped-slash$$$y".
-Proof. exact F5_nodecode_fixed_refuted. Qed.
+Proof. exact F5_nodecode_repaired_refuted. Qed.
 Print Assumptions C08_F5_nodecode_refuted.
 
 (** C08-F2 under `no_decode` on the tree before a779db8: the lower-case slash was decoded *)
